@@ -4,8 +4,13 @@ namespace Mutagen.Driver.C35
 open Mutagen.Driver Mutagen.Model.CloseLadder
 
 /-!
-Line: `<delay> <g1> <g2> <self> <onStdin> <onTerm> <killLatency> = <observed>`
-(milliseconds; `-` for a reaction the agent does not have). `<observed>` is the
+Line: `<delay> <g1> <g2> <self> <onStdin> <onTerm> <killLatency> <holders> <R|N> = <observed>`
+(milliseconds; `-` for a reaction the agent does not have; `<holders>`: the
+standard streams — subset of `eoi`, `-` none — inherited by a descendant that
+outlives the agent; `R`: NewStream got a standard-error receiver). The two
+fields may be missing (older lines). Only the explorer's ladder steps matter
+for the outcome: by `holders_do_not_matter` the descendant's and the copier's
+steps change nothing Close can see. `<observed>` is the
 stage in which the real `Close` returned (`wait stdin term kill`). The model
 explores its runs under the promptness assumptions and prints the observed
 stage if one of its runs returns there, else the stage of its first run.
@@ -19,14 +24,20 @@ def showStage : Stage → String
 
 def handle (line : String) : String :=
   match fields line with
-  | [d, g1, g2, self, onStdin, onTerm, kl, "=", obs] =>
+  | [d, g1, g2, self, onStdin, onTerm, kl, "=", obs] => go d g1 g2 self onStdin onTerm kl "-" "N" obs
+  | [d, g1, g2, self, onStdin, onTerm, kl, holders, r, "=", obs] => go d g1 g2 self onStdin onTerm kl holders r obs
+  | _ => "bad-line"
+where
+  go (d g1 g2 self onStdin onTerm kl holders r obs : String) : String :=
     match d.toNat?, g1.toNat?, g2.toNat?, optNat self, optNat onStdin, optNat onTerm, kl.toNat? with
     | some d, some g1, some g2, some self, some onStdin, some onTerm, some kl =>
-      let p : Params := { delay := d, g1 := g1, g2 := g2 }
-      let b : Behaviour := { self := self, onStdin := onStdin, onTerm := onTerm, killLatency := kl }
-      let stages := ((outcomes p b 64 (init p b)).map fun r => showStage r.1).eraseDups
-      if stages.contains obs then obs else stages.headD "no-return"
+      if (r == "R" || r == "N") && (holders == "-" || holders.toList.all fun c => c == 'e' || c == 'o' || c == 'i') then
+        let p : Params := { delay := d, g1 := g1, g2 := g2, recv := r == "R" }
+        let b : Behaviour := { self := self, onStdin := onStdin, onTerm := onTerm, killLatency := kl,
+                               holder := holders.toList.contains 'e' }
+        let stages := ((outcomes p b 64 (init p b)).map fun r => showStage r.1).eraseDups
+        if stages.contains obs then obs else stages.headD "no-return"
+      else "bad-line"
     | _, _, _, _, _, _, _ => "bad-line"
-  | _ => "bad-line"
 
 end Mutagen.Driver.C35
